@@ -98,7 +98,19 @@ func main() {
 			pool[i] = rt.Pattern(rnd, hostPct)
 			if i > 0 && rnd.Pct(35) { // derive from an earlier one to force shared prefixes / conflicts
 				b := pool[rnd.Intn(i)]
-				switch rnd.Intn(4) {
+				switch rnd.Intn(6) {
+				case 4, 5:
+					// hostname patterns whose hosts are label-wise prefixes / extensions of each other
+					// (the host/path boundary then falls in the middle of an existing host edge)
+					if h, pth := rt.SplitPattern(b); h != "" {
+						if i := strings.LastIndexByte(h, '.'); i > 0 && rnd.Bool() {
+							b = h[:i] + pth
+						} else {
+							b = h + "." + hx.Pick(rnd, []string{"c", "com", "{g}"}) + pth
+						}
+					} else {
+						b = hx.Pick(rnd, []string{"a.{h}", "{h}.b", "a.{h}.c", "{g}.{h}"}) + b
+					}
 				case 0:
 					b = strings.Replace(b, "{x}", "{y}", 1)
 				case 1:
@@ -111,6 +123,16 @@ func main() {
 					}
 				}
 				pool[i] = b
+			}
+		}
+		if hostPct > 0 && rnd.Pct(70) {
+			// family of hostname patterns whose hosts extend each other label by label around a
+			// parameter label: the host/path boundary of one falls inside the host edge of another
+			hbase := hx.Pick(rnd, []string{"a.{b}", "{sub}.example", "x.{h}.y", "{g}.{h}"})
+			tail := hx.Pick(rnd, []string{"/x", "/", "/{p}"})
+			fam := []string{hbase + ".c" + tail, hbase + tail, hbase + ".c.d" + tail, hbase + ".com/"}
+			for _, f := range fam[:rnd.Range(2, 4)] {
+				pool[rnd.Intn(len(pool))] = f
 			}
 		}
 		methods := []string{"GET", "POST", "FOO", "BAR"}
